@@ -179,6 +179,12 @@ def adversarial_case(r):
         s = r.below(st["n"] + 1); op = f"{k} {s} {s + r.below(4)}"
     elif k == "merge":
         s = r.below(st["n"] + 1); op = f"{k} {s} {s + r.below(4)}"   # level 2 forwards to unsafe_to_break
+        if st["s"] == 0:
+            # shared out-buffer: out[0..out_len) IS info[0..out_len), and out_len <= idx in every reachable state. With
+            # out_len > idx the "continue in out-buffer" loop of merge_clusters would compare against info[start] while
+            # overwriting it through the alias; the model keeps the cluster value it read first (found by the thorough tier:
+            # `i=1 n=2 o=2 … ; merge 1 4`). Outside the representation invariant, not generated.
+            st["o"] = min(st["o"], st["i"])
     elif k == "mergeout":
         s = a(); op = f"{k} {s} {s + r.below(4)}"
     elif k in ("nexts", "moveto", "ensure", "shiftfwd"): op = f"{k} {a()}"
